@@ -51,7 +51,7 @@ type state struct {
 	cache   *ipCache
 	pols    map[string]*proto.Policy // what was added (for the reference semantics)
 	supp    map[string]bool          // policy uses supported criteria only
-	svcPlus map[string]bool          // ... except egress Service rules that also carry a protocol / source ports
+	svcPlus map[string]bool          // ... except egress Service rules that also carry source nets / IP sets
 }
 
 func splitL(sep, s string) []string {
@@ -422,24 +422,26 @@ func supported(r *proto.Rule, inbound bool) bool {
 		return false
 	}
 	if len(r.DstIpPortSetIds) > 0 {
-		if inbound || r.Protocol != nil || len(r.SrcNet)+len(r.DstNet)+len(r.SrcPorts)+len(r.DstPorts)+len(r.SrcIpSetIds)+len(r.DstIpSetIds) > 0 {
+		// protocol and source ports next to a destination Service are honoured since /repo 44f8f9c
+		if inbound || len(r.SrcNet)+len(r.DstNet)+len(r.DstPorts)+len(r.SrcIpSetIds)+len(r.DstIpSetIds) > 0 {
 			return false
 		}
 	}
 	return true
 }
 
-// svcWithProto: an egress rule on a destination Service (one IP-port set) that ALSO carries a
-// protocol and/or source ports - valid in the v3 API (only destination ports/nets/selectors are
-// forbidden next to services), and made of criteria the Windows dataplane supports.
-func svcWithProto(r *proto.Rule, inbound bool) bool {
-	if inbound || len(r.DstIpPortSetIds) != 1 || (r.Protocol == nil && len(r.SrcPorts) == 0) {
+// svcWithSource: an egress rule on a destination Service (one IP-port set) that ALSO carries source
+// nets and/or a source IP set - valid in the v3 API (only DESTINATION nets/selectors/ports are
+// forbidden next to destination.services) and made of criteria the Windows dataplane supports, but
+// the DstIpPortSetIds branch of protoRuleToHnsRules never looks at them.
+func svcWithSource(r *proto.Rule, inbound bool) bool {
+	if inbound || len(r.DstIpPortSetIds) != 1 || len(r.SrcNet)+len(r.SrcIpSetIds) == 0 {
 		return false
 	}
 	c := googleClone(r)
-	c.Protocol = nil
-	c.SrcPorts = nil
-	return supported(c, inbound) && supported(&proto.Rule{Action: r.Action, Protocol: r.Protocol}, inbound)
+	c.SrcNet = nil
+	c.SrcIpSetIds = nil
+	return supported(c, inbound) && supported(&proto.Rule{Action: r.Action, SrcNet: r.SrcNet, SrcIpSetIds: r.SrcIpSetIds}, inbound)
 }
 
 func googleClone(r *proto.Rule) *proto.Rule {
@@ -632,7 +634,7 @@ func exec(h *rt.H, s *state, op string) string {
 		}
 		for _, r := range p.OutboundRules {
 			ok = ok && supported(r, false)
-			if svcWithProto(r, false) {
+			if svcWithSource(r, false) {
 				plus = true
 			} else {
 				okPlus = okPlus && supported(r, false)
@@ -681,10 +683,10 @@ func exec(h *rt.H, s *state, op string) string {
 		switch {
 		case !allSupp && allSuppPlus:
 			if len(acts) != 1 || acts[0] != ref {
-				h.OracleFail("service-rule-protocol-ignored", "egress rule on a destination Service that also carries a protocol / source ports: the generated HNS rules ignore them",
+				h.OracleFail("service-rule-source-ignored", "egress rule on a destination Service that also carries source nets / a source IP set: the generated HNS rules ignore them",
 					map[string]any{"op": op, "hns": acts, "policy": ref, "rules": renderRules(rules)})
 			} else {
-				h.Count("pkt:service-with-protocol-agrees")
+				h.Count("pkt:service-with-source-agrees")
 			}
 		case !allSupp:
 			h.Count("pkt:unsupported-or-missing(no-oracle)")
@@ -692,7 +694,15 @@ func exec(h *rt.H, s *state, op string) string {
 			h.OracleFail("ambiguous-priority", "rules with different actions share the lowest matching priority (verdict depends on HNS tie-break)",
 				map[string]any{"op": op, "actions": acts, "rules": renderRules(rules)})
 		case acts[0] != ref:
-			h.OracleFail("verdict-mismatch", "HNS rules evaluated by priority give a different verdict than the policy",
+			sig := "verdict-mismatch"
+			for _, id := range ids {
+				for _, r := range s.pols[id].OutboundRules {
+					if len(r.DstIpPortSetIds) > 0 && (r.Protocol != nil || len(r.SrcPorts) > 0) {
+						sig = "service-rule-protocol-ignored" // regression guard for /repo 44f8f9c
+					}
+				}
+			}
+			h.OracleFail(sig, "HNS rules evaluated by priority give a different verdict than the policy",
 				map[string]any{"op": op, "hns": acts[0], "policy": ref, "rules": renderRules(rules)})
 		default:
 			h.Count("pkt:oracle-checked")
@@ -909,11 +919,18 @@ func (g *gen) rule(inbound bool) string {
 		if g.bad && g.h.Chance(0.3) {
 			f[2] = "ntcp"
 			f[8] = "80-80"
-		} else if g.h.Chance(0.25) {
+		} else if g.h.Chance(0.3) {
 			// valid in the v3 API: protocol (and source ports) next to a destination Service
 			f[2] = rt.Pick(g.h, []string{"ntcp", "nudp"})
-			if g.h.Chance(0.3) {
-				f[7] = "1000-2000"
+			if g.h.Chance(0.4) {
+				f[7] = rt.Pick(g.h, []string{"1000-2000", "1000-1000+3000-3000", "1500-1500"})
+			}
+		} else if g.h.Chance(0.15) {
+			// also valid: SOURCE nets / a source IP set next to a destination Service (still ignored)
+			if g.h.Bool() || len(g.sets) == 0 {
+				f[3] = rt.Pick(g.h, []string{"10.0.0.0/24", "10.0.0.5", "192.168.0.0/16"})
+			} else {
+				f[9] = rt.Pick(g.h, g.sets)
 			}
 		}
 		return strings.Join(f, ";")
